@@ -107,8 +107,26 @@ func verbsOfKind(k string) string {
 // leaf outside the domain).
 func validVerbs(d *D) string {
 	switch d.K {
-	case "Safe", "Unsafe", "slice", "arr", "S2", "SEmbed", "SVStruct", "SVSlice", "ptr", "RValue", "RegStruct", "strgs":
+	case "RVFieldT":
+		switch rvFieldTIndex(d) {
+		case 0, 1:
+			return verbsOfKind("RS")
+		case 2:
+			return "sqxXv"
+		case 3, 6:
+			return "bcdoOqxXUv" // read-only: no String method is called
+		}
+		return ""
+	case "Safe", "Unsafe", "slice", "arr", "S2", "SEmbed", "SVStruct", "SVSlice", "ptr", "RValue", "RegStruct", "strgs", "RVIdx", "RVFieldI":
 		vs := "abcdefgijklmnoqrstuvxyzABCDEFGHIJKLMNOQRSUVWXYZ!"
+		if d.K == "RVFieldI" {
+			switch k := d.Sub[0].K; {
+			case k == "RSlit" || k == "RBlit":
+				return vs
+			case k == "RegDur":
+				return "bcdoOqxXUv"
+			}
+		}
 		if d.K == "RegStruct" {
 			vs = intersect(vs, "bcdoOqxXUv") // the int field
 		}
@@ -140,7 +158,7 @@ func intersect(a, b string) string {
 // String/Error are printed structurally instead: outside the bracket domain.
 func sharpVOK(d *D) bool {
 	switch d.K {
-	case "Stringer", "PStringer", "Err", "StdErr", "WrapErr", "PErr", "ErrStringer", "RegStr", "RegDur", "SVStringer", "ptr", "RValue", "strgs":
+	case "Stringer", "PStringer", "Err", "StdErr", "WrapErr", "PErr", "ErrStringer", "RegStr", "RegDur", "SVStringer", "ptr", "RValue", "strgs", "RVIdx", "RVFieldI":
 		return false
 	}
 	for _, s := range d.Sub {
@@ -236,8 +254,29 @@ func c05value(r *Rng, depth int, top bool) *D {
 		return &D{K: "RegStruct", N: randInt(r), Sub: []*D{sub()}}
 	case c < 56 && top:
 		return dSub("ptr", dSub("S2", sub(), sub()))
-	case c < 59 && top:
+	case c < 58 && top:
 		return dSub("RValue", sub())
+	case c < 59 && top:
+		// reflect.Value operands of the other shapes a struct walker produces
+		switch r.Intn(3) {
+		case 0:
+			return dSub("RVIdx", sub())
+		case 1:
+			ks := []string{"bool", "int", "uint8", "int64", "float64", "string", "NInt", "NStr", "NFloat", "nil", "RegInt", "RegStr", "RegDur", "RSlit", "RBlit"}
+			k := ks[r.Intn(len(ks))]
+			var l *D
+			if k == "RSlit" || k == "RBlit" {
+				l = dS(k, string(redact.Sprint(c05payload(r), redact.Safe(c05payload(r)))))
+			} else {
+				l = leafOfKind(r, k, c05opts())
+				if k == "string" || k == "NStr" || k == "RegStr" {
+					l.S = QS(c05payload(r))
+				}
+			}
+			return &D{K: "RVFieldI", Sub: []*D{l}}
+		default:
+			return &D{K: "RVFieldT", N: 7*int64(r.Intn(3000)) + []int64{0, 1, 2, 3, 6}[r.Intn(5)], S: QS(c05payload(r))}
+		}
 	case c < 70:
 		return dSub("Safe", sub())
 	case c < 80:
@@ -487,6 +526,13 @@ func c05product() []*Call {
 		func(l *D) *D { return dSub("S2", l, dS("string", "z")) },
 		func(l *D) *D { return dSub("ptr", dSub("S2", dS("string", "z"), l)) },
 		func(l *D) *D { return dSub("RValue", l) },
+		func(l *D) *D { return dSub("RVIdx", l) },
+		func(l *D) *D {
+			if structuralLeaf(l.K) || l.K == "RegInt" || l.K == "RegStr" || l.K == "RegDur" || l.K == "nil" {
+				return &D{K: "RVFieldI", Sub: []*D{l}}
+			}
+			return l
+		},
 		func(l *D) *D { return dSub("SEmbed", dN("int", 1), l, dSub("Safe", dS("string", "pub"))) },
 		func(l *D) *D { return dSub("SVStruct", l, dS("string", "z")) },
 		func(l *D) *D {
